@@ -367,6 +367,7 @@ func checkProgram(ps emitbatch.ProgSpec, bt batch, ns *rig.NatsServer) *progResu
 			largeReplies(prog, svc, gs, methods, []string{"binary", "compact", "json"}[int(ps.Seed>>8&0xffff)%3], rng, ns, res, addV)
 			afterOversizeReply(prog, svc, gs, methods, []string{"binary", "compact", "json"}[int(ps.Seed&0xffff)%3], rng, ns, res, addV)
 			bigResponseHeaders(prog, svc, gs, methods, rand.New(rand.NewSource(bt.Seed^ps.Seed^0x62696768647273)), ns, res, addV)
+			heldUpCaller(prog, svc, gs, methods, rand.New(rand.NewSource(bt.Seed^ps.Seed^0x68656c64)), ns, res, addV)
 			if pf, parent := parentOf(prog, f, svc); parent != nil {
 				if pgs, pn := findEmitted(pkgs, pf, parent); pgs != nil && pn == 1 {
 					for _, lp := range bt.Legs {
@@ -1290,7 +1291,12 @@ func runCall(prog *idl.Program, svc *idl.Service, mi methodInfo, gm reflect.Valu
 	}
 	fctx := frugal.NewFContext(token)
 	fctx.SetTimeout(30 * time.Second)
-	in := []reflect.Value{reflect.ValueOf(fctx)}
+	var callCtx frugal.FContext = fctx
+	if wrapCallCtx != nil && !m.Oneway {
+		// the caller passes its own FContext implementation (heldcaller.go)
+		callCtx = wrapCallCtx(fctx)
+	}
+	in := []reflect.Value{reflect.ValueOf(&callCtx).Elem()}
 	var argTrees []string
 	for i, a := range m.Args {
 		av := prog.GenValue(rng, mi.file, a.Type, 1)
